@@ -80,6 +80,25 @@ def schemeTable : List Bytes :=
   [ [0x68,0x74,0x74,0x70], [0x68,0x74,0x74,0x70,0x73], [0x66,0x74,0x70],
     [0x6D,0x61,0x69,0x6C,0x74,0x6F], [0x69,0x72,0x63] ]   -- http https ftp mailto irc
 
+/-- How a link is spelled: inline `[text](dest "title")`, or as a full reference `[text][label]`
+    whose definition `[defLabel]: dest "title"` the writer puts into the leading (`before`) or the
+    trailing definition block of the document. `label` and `defLabel` may differ in letter case. -/
+inductive Spell where
+  | inline
+  | ref (label defLabel : Bytes) (before : Bool)
+  deriving Repr, DecidableEq, Inhabited
+
+/-- A link reference definition as written. -/
+structure RefDef where
+  label : Bytes
+  url : Bytes
+  title : Bytes
+  angle : Bool
+  before : Bool
+  /-- the label as spelled at the use site (empty for a definition nothing refers to) -/
+  useLabel : Bytes := []
+  deriving Repr, DecidableEq, Inhabited
+
 mutual
 inductive Inl where
   | text (as : List Atom)
@@ -91,7 +110,7 @@ inductive Inl where
   /-- GFM strikethrough `~~..~~` -/
   | strike (cs : Inls)
   /-- inline link; `angle`: destination written `<url>`; empty title = no title -/
-  | link (url title : Bytes) (angle : Bool) (cs : Inls)
+  | link (url title : Bytes) (angle : Bool) (sp : Spell) (cs : Inls)
   | image (url title : Bytes) (angle : Bool) (cs : Inls)
   /-- `<scheme:rest>` -/
   | autolink (scheme : Nat) (rest : Bytes)
@@ -136,6 +155,8 @@ end
 
 structure Doc where
   blocks : Blks
+  /-- extra definitions written after every other one: they can only lose ("first definition wins") -/
+  shadow : List RefDef := []
 
 instance : Inhabited Inls := ⟨.nil⟩
 instance : Inhabited Blks := ⟨.nil⟩
@@ -165,7 +186,7 @@ def Inl.toTree : Inl → Tree
   | .emph _ cs => .node .emph {} cs.toForest
   | .strong _ cs => .node .strong {} cs.toForest
   | .strike cs => .node .strikethrough {} cs.toForest
-  | .link url title _ cs => .node (.link url title) {} cs.toForest
+  | .link url title _ _ cs => .node (.link url title) {} cs.toForest
   | .image url title _ cs => .node (.image url title) {} cs.toForest
   | .autolink s r => .node (.link (autolinkUrl s r) []) {} (.cons (leaf (.text (autolinkUrl s r))) .nil)
   | .hard _ => leaf .lineBreak
@@ -229,7 +250,8 @@ def Inl.src : Inl → Bytes
   | .emph us cs => let d : UInt8 := if us then 0x5F else 0x2A; [d] ++ cs.src ++ [d]
   | .strong us cs => let d : UInt8 := if us then 0x5F else 0x2A; [d, d] ++ cs.src ++ [d, d]
   | .strike cs => [0x7E, 0x7E] ++ cs.src ++ [0x7E, 0x7E]
-  | .link url title angle cs => [0x5B] ++ cs.src ++ [0x5D, 0x28] ++ destSrc url angle ++ titleSrc title ++ [0x29]
+  | .link url title angle .inline cs => [0x5B] ++ cs.src ++ [0x5D, 0x28] ++ destSrc url angle ++ titleSrc title ++ [0x29]
+  | .link _ _ _ (.ref label _ _) cs => [0x5B] ++ cs.src ++ [0x5D, 0x5B] ++ label ++ [0x5D]
   | .image url title angle cs => [0x21, 0x5B] ++ cs.src ++ [0x5D, 0x28] ++ destSrc url angle ++ titleSrc title ++ [0x29]
   | .autolink s r => [0x3C] ++ autolinkUrl s r ++ [0x3E]
   | .hard true => [0x5C, 0x0A]
@@ -280,7 +302,64 @@ def Items.lines (m : Marker) (k : Nat) : Items → List Bytes
   | .cons bs r => itemLines (m.src k) (bs.lines m.tight) ++ (if m.tight || r.isNil then [] else [[]]) ++ r.lines m (k + 1)
 end
 
-/-- The Markdown text of a document: every line terminated by a newline. -/
-def Doc.write (d : Doc) : Bytes := joinLines (d.blocks.lines false)
+/-! ### Reference definitions -/
+
+mutual
+/-- The definitions the reference-spelled links of this content need, in document order. -/
+def Inl.defs : Inl → List RefDef
+  | .emph _ cs => cs.defs
+  | .strong _ cs => cs.defs
+  | .strike cs => cs.defs
+  | .link url title angle (.ref label dl b) cs =>
+    { label := dl, url := url, title := title, angle := angle, before := b, useLabel := label } :: cs.defs
+  | .link _ _ _ .inline cs => cs.defs
+  | .image _ _ _ cs => cs.defs
+  | _ => []
+def Inls.defs : Inls → List RefDef
+  | .nil => []
+  | .cons i r => i.defs ++ r.defs
+end
+
+mutual
+def Blk.defs : Blk → List RefDef
+  | .para is => is.defs
+  | .heading _ is => is.defs
+  | .setext _ _ is => is.defs
+  | .quote bs => bs.defs
+  | .list _ items => items.defs
+  | _ => []
+def Blks.defs : Blks → List RefDef
+  | .nil => []
+  | .cons b r => b.defs ++ r.defs
+def Items.defs : Items → List RefDef
+  | .nil => []
+  | .cons bs r => bs.defs ++ r.defs
+end
+
+/-- `[label]: dest "title"` -/
+def RefDef.line (d : RefDef) : Bytes :=
+  [0x5B] ++ d.label ++ [0x5D, 0x3A, 0x20] ++ destSrc d.url d.angle ++ titleSrc d.title
+
+/-- All definitions in the order they are written: the leading block, then the trailing block,
+    then the shadowed ones. -/
+def Doc.allDefs (d : Doc) : List RefDef :=
+  let ds := d.blocks.defs
+  ds.filter (fun x => x.before) ++ ds.filter (fun x => !x.before) ++ d.shadow
+
+/-- Groups of lines separated by one blank line (empty groups vanish). -/
+def joinGroups : List (List Bytes) → List Bytes
+  | [] => []
+  | g :: rest =>
+    let r := joinGroups rest
+    if g.isEmpty then r else if r.isEmpty then g else g ++ [[]] ++ r
+
+/-- The Markdown text of a document: every line terminated by a newline; the definitions of
+    reference-spelled links stand in a block before or after the content. -/
+def Doc.write (d : Doc) : Bytes :=
+  let ds := d.blocks.defs
+  joinLines (joinGroups
+    [ (ds.filter (fun x => x.before)).map RefDef.line,
+      d.blocks.lines false,
+      (ds.filter (fun x => !x.before) ++ d.shadow).map RefDef.line ])
 
 end Comrak.Canon
